@@ -72,8 +72,10 @@ def translate(repo):
                              "(resize m+chunk; fgets(&s[m], chunk); NULL => fix(m), false; n = m + strlen; n > 0 and LF => strip LF then one CR; m = n)")
     # ---- lines()
     body = _flat(cparse.find_function(tf, r"Array<String>\s+TextFile::lines\s*\(\s*\)\s*\{"))
-    if "while(!end()){lines<<String();readLine(lines.last());}" not in body:
-        raise TranslateError("TextFile::lines(): loop is no longer `while (!end()) { lines << String(); readLine(lines.last()); }`")
+    if body != ("{Array<String>lines;if(_file){flush();returnTextFile(_path).lines();}if(!open(READ))returnlines;"
+                "while(!end()){lines<<String();if(!readLine(lines.last())&&error())break;}close();returnlines;}"):
+        raise TranslateError("TextFile::lines() is no longer: open object => flush and TextFile(_path).lines(); else open(READ); "
+                             "`while (!end()) { lines << String(); if (!readLine(lines.last()) && error()) break; }`; close()")
     body = _flat(cparse.find_function(tf, r"bool\s+TextFile::end\s*\(\s*\)\s*\{"))
     if "return(_file||open(_path,READ))?feof(_file)!=0:true;" not in body:
         raise TranslateError("TextFile::end() is no longer feof() of the (lazily opened) file")
@@ -102,13 +104,13 @@ def translate(repo):
                              "(a file shorter than the cached size must not be compared through uninitialised bytes)")
     b3 = int(m.group(1), 16)
     loops = re.findall(r"while\(1\)\{if\(read\(b,2\)<2\)break;c=b\[([01])\]\|\(\(\(wchar_t\)b\[([01])\]\)<<8\);"
-                       r"if\(c=='\\n'&&c0=='\\r'\)a\.resize\(a\.length\(\)-1\);a<<c;c0=c;\}a<<0;text=a\.data\(\);returntext;", flat)
+                       r"if\(c=='\\n'&&c0=='\\r'\)a\.resize\(a\.length\(\)-1\);a<<c;c0=c;\}a<<0;text=a\.data\(\);close\(\);returntext;", flat)
     if len(loops) != 2:
         raise TranslateError("TextFile::text(): the two UTF-16 unit loops (read 2 bytes, combine, fold CR LF, append) are not both recognised")
     for lo, hi in loops:
         if lo == hi:
             raise TranslateError("TextFile::text(): UTF-16 unit built from the same byte twice")
-    if not flat.endswith("else{seek(0);}}text.resize(n,false,false);n=read(&text[0],n);text[n]='\\0';text.fix(n);returntext;}"):
+    if not flat.endswith("else{seek(0);}}text.resize(n,false,false);n=read(&text[0],n);text[n]='\\0';text.fix(n);close();returntext;}"):
         raise TranslateError("TextFile::text(): the plain/UTF-8 tail (seek(0); resize(n); n = read(&text[0], n); fix(n)) is not recognised")
     # ---- TextFile writers
     def tfhas(fn_re, needle, what):
@@ -148,7 +150,7 @@ def translate(repo):
     has(r"ByteArray\s+File::content\s*\(\s*\)\s*\{",
         "{if(_file){flush();returnFile(_path).content();}_info.clear();returnfirstBytes((int)size());}", "File::content()")
     has(r"ByteArray\s+File::firstBytes\s*\(\s*int\s+n\s*\)\s*\{",
-        "{if(_file){flush();returnFile(_path).firstBytes(n);}ByteArraydata(n);if(!open(_path)){data.clear();returndata;}data.resize(read(&data[0],n));returndata;}",
+        "{if(_file){flush();returnFile(_path).firstBytes(n);}ByteArraydata(n);if(!open(_path)){data.clear();returndata;}data.resize(read(&data[0],n));close();returndata;}",
         "File::firstBytes()")
     has(r"bool\s+File::put\s*\(\s*const\s+ByteArray\s*&\s*data\s*\)\s*\{",
         "if(!_file&&!open(_path,WRITE))returnfalse;returnwrite(data.data(),data.length())==data.length();", "File::put()")
@@ -178,7 +180,7 @@ def translate(repo):
     block = int(ms[0])
     flat = _flat(body)
     if ("do{n=src.read(buffer,sizeof(buffer));if(n<0)returnfalse;intm=dst.write(buffer,n);if(m!=n)returnfalse;}"
-            "while(n==sizeof(buffer));returntrue;") not in flat:
+            "while(n==sizeof(buffer));dst.flush();if(dst.error())returnfalse;returntrue;") not in flat:
         raise TranslateError("Directory::copy: the block loop no longer has the transcribed shape "
                              "(read sizeof(buffer); write n; repeat while n == sizeof(buffer))")
     if ("structstatsfrom,sto;if(stat(from,&sfrom)==0&&stat(topath,&sto)==0&&sfrom.st_dev==sto.st_dev&&sfrom.st_ino==sto.st_ino)returnfalse;"
@@ -192,6 +194,11 @@ def translate(repo):
     if ("if(tofile.isDirectory())dst=to+'/'+File(from).name();if(rename(from,dst)==0)returntrue;"
             "if(errno==EXDEV){if(!copy(from,dst))returnfalse;returnremove(from);}returnfalse;") not in body:
         raise TranslateError("Directory::move: rename / EXDEV copy+remove fallback changed")
+    whole = _flat(cparse.read(repo, "src/Directory.cpp"))
+    if "boolFile::copy(constString&to){if(_file)flush();returnDirectory::copy(_path,to);}" not in whole:
+        raise TranslateError("File::copy no longer flushes the object before Directory::copy(_path, to)")
+    if "boolFile::move(constString&to){if(_file)close();returnDirectory::move(_path,to);}" not in whole:
+        raise TranslateError("File::move no longer closes the object before Directory::move(_path, to)")
     body = _flat(cparse.find_function(dc, r"bool\s+Directory::remove\s*\(\s*const\s+String\s*&\s*path\s*\)\s*\{"))
     if "if(File(path).isDirectory())returnrmdir(path)==0;elsereturnunlink(path)==0;" not in body:
         raise TranslateError("Directory::remove: rmdir/unlink selection changed")
@@ -330,6 +337,23 @@ def reference(line):
         if op == "xput":
             b = tok_bytes(t[2])
             return "%d %s raw=1" % (len(b), show_bytes(b))
+        if op == "xwlines":
+            b = tok_bytes(t[1])
+            if 0 in b:
+                return None
+            l = show_lines(ref_lines(b))
+            return "%s | %s | %s" % (l, l, l)
+        if op == "xreadwrite":
+            b1, b2 = tok_bytes(t[2]), tok_bytes(t[3])
+            return "1 " + show_bytes(b1 + b2 if t[1] == "t" else b2)
+        if op == "xobjcopy":
+            b = tok_bytes(t[3])
+            return "1 %s 1 %s src=0" % (show_bytes(b), show_bytes(b + b))
+        if op == "xfull":
+            b = tok_bytes(t[1])
+            if not b:
+                return None        # an empty file "fits": nothing the property forbids
+            return "0 0 " + show_bytes(b)
         if op in ("xtwice", "xputread", "xreopen", "xstale", "xstalesize"):
             # whole-file readers of ONE object: asked twice, after a lazily opening writer, after reopening, after another writer
             b = tok_bytes(t[-1])
@@ -510,6 +534,15 @@ def enc_bom(scalars, kind):
     return s.encode("utf-8")
 
 
+def _full_ok():
+    """is /dev/full there (a character device every write to which fails with ENOSPC)?"""
+    import stat
+    try:
+        return stat.S_ISCHR(os.stat("/dev/full").st_mode) and os.access("/dev/full", os.W_OK)
+    except OSError:
+        return False
+
+
 def _xdev_ok():
     """is /dev/shm a writable directory on another device than /tmp (so that rename() fails with EXDEV)?"""
     try:
@@ -522,6 +555,9 @@ def gen(rng, tier):
     quick = tier == "quick"
     cases = []
     xdev_ok = _xdev_ok()
+    if not _full_ok():
+        from lib.core import log
+        log("[C17] WARNING: /dev/full is not available: the failing-flush branch of Directory::copy/move is NOT exercised in this run")
     if not xdev_ok:
         from lib.core import log
         log("[C17] WARNING: /dev/shm is not a second writable device: the EXDEV branch of Directory::move is NOT exercised in this run")
@@ -670,6 +706,18 @@ def gen(rng, tier):
                                               btok(rng, n1, nulfree=True), btok(rng, n2, nulfree=True))])
     for i in range(320 if quick else 5000):
         cases.append(gen_obj_history(rng))
+    # lines() after writing through the same object / after text() / twice; a reader then a lazily opening writer; File::copy and
+    # File::move of an object with unflushed writes; a destination that accepts no byte (/dev/full)
+    full_ok = _full_ok()
+    for i in range(120 if quick else 2000):
+        t, _ = gen_text(rng, 5)
+        n = rng.choice([0, 1, 5, 100, 4095, 4096, 4097, 9000, 70000])
+        c = ["xwlines " + hexs(t),
+             "xreadwrite %s %s %s" % (rng.choice("ft"), btok(rng, rng.choice([0, 1, 4, 100, 5000]), nulfree=True), btok(rng, rng.choice([0, 1, 3, 200, 5000]), nulfree=True)),
+             "xobjcopy %s %s %s" % (rng.choice("ft"), "1" if xdev_ok and rng.random() < 0.5 else "0", btok(rng, n, nulfree=True))]
+        if full_ok:
+            c.append("xfull " + btok(rng, rng.choice([1, 2, 100, 1000, 4096, 4097, 70000]), nulfree=True))
+        cases.append(c)
     # whole-file readers of one object: twice, after a lazily opening writer, after reopening, after another writer
     for i in range(160 if quick else 2500):
         k = rng.choice("ft")
@@ -689,10 +737,12 @@ def gen(rng, tier):
 #    path are printed `?`, reads of it are refused (`err dirty`); the writing object itself is always answered exactly;
 #  * a stat-backed query on a CLOSED object while its path is dirty makes it POISONED (its cache holds an undetermined size): its
 #    hsize prints `?` until close()/content()/text() discard the cache or the object is open (an open object asks again);
-#  * text()/lines() through the object's own handle leave it SPENT (position not modelled) for read()/lines() until it is closed or
-#    reopened; a reader whose path was written since it was opened is STALE for read()/lines(); content()/text()/firstBytes() of an
-#    open object go through a fresh handle and are never refused for that; two writers on one path are refused (`err busy`);
-#    hopen on an open object is a plain open() (the library closes the old handle itself);
+#  * content()/text()/lines()/firstBytes() leave the object as it was: a closed one opens, reads and closes, an open one (any mode)
+#    flushes and reads through a fresh handle, so they are never refused except for another object's unflushed data; read() works on
+#    an explicitly opened reader only and is refused when STALE (the path was written since it was opened); two writers on one path
+#    are refused (`err busy`); hopen on an open object is a plain open() (the library closes the old handle itself);
+#    hcopy/hmove (File::copy/File::move of the object, to a path or to `full` = /dev/full) are refused (`err busy`) while another
+#    object is open on the source or any object on the destination;
 #  * observations through temporaries (raw size content text lines exists first) leave the objects alone, every other non-h operation
 #    calls close() on all of them first.
 OBJ_SIZES = [0, 1, 2, 3, 100, 255, 1000, 4095, 4096, 4097, 5000, 8191, 8192, 8193, 12288, 70000, 100000]
@@ -745,10 +795,18 @@ def gen_obj_history(rng):
             c += ["hsize 0", "hcontent 0", "hcontent 0"]         # still open for writing: answered through a fresh handle
         if rng.random() < 0.2:
             c += ["hopen 0 r", "hcontent 0", "hfirst 0 3"]        # reopened without close(): nothing may be lost
+        if rng.random() < 0.25:
+            other = rng.choice([p for p in PATHS if p != main])
+            c += ["hcopy 0 " + other, "raw " + other]              # File::copy with unflushed writes
+        if rng.random() < 0.12:
+            other = rng.choice([p for p in PATHS if p != main])
+            c += ["hmove 0 " + other, "raw " + other, "exists " + main, "hnew 0 %s %s" % (other, k)]
+            main = other
         c.append("hclose 0")
         tail = ["hsize 0", "hcontent 0", "hcontent 0", "hfirst 0 4", "raw " + main, "size " + main, "content " + main]
         if k == "t":
-            tail = ["hsize 0", rng.choice(["htext 0", "hlines 0", "hcontent 0"]), rng.choice(["htext 0", "hcontent 0"]), "raw " + main, "text " + main]
+            tail = ["hsize 0", rng.choice(["htext 0", "hlines 0", "hcontent 0"]), rng.choice(["htext 0", "hcontent 0", "hlines 0"]),
+                    rng.choice(["happ 0 78", "hlines 0", "hw 0 79"]), "hlines 0", "raw " + main, "text " + main]
         if rng.random() < 0.3:
             tail.insert(0, rng.choice(["hexists 0", "hisfile 0"]))
         c += tail
@@ -804,6 +862,12 @@ def gen_obj_history(rng):
                 c.append("%s %d %d" % (op, h, rng.choice([0, 1, 10, 4096, 100000])))
             else:
                 c.append("%s %d" % (op, h))
+        elif r < 0.93:
+            q = rng.choice(PATHS + (["full"] if _full_ok() else []))
+            c.append("%s %d %s" % (rng.choice(["hcopy", "hmove"]), h, q))
+            if q != "full":
+                c.append("raw " + q)
+            c.append("raw " + main)
         elif r < 0.96:
             c.append(rng.choice(["size", "content", "raw", "text", "lines", "exists"]) + " " + main)
         else:
@@ -876,6 +940,9 @@ def gen_history(rng, xdev_ok):
             c.append("%s %s %d" % (rng.choice(["copyd", "moved"]), p, d))
             for q in PATHS:
                 c.append("raw " + q)
+        elif r < 0.915 and _full_ok():
+            c.append("%s %s full" % (rng.choice(["copy", "move"]), p))
+            c.append("raw " + p)
         elif r < 0.93:
             c.append("rm " + p)
         else:
@@ -953,7 +1020,7 @@ def distribution(cases):
     histlen = 0
     objh = 0
     objq = 0
-    xdev = {"xdev_ok": _xdev_ok(), "xmove_xdev": 0, "xmove_same_device": 0, "dev2_1_histories": 0, "moves_in_dev2_1_histories": 0}
+    xdev = {"xdev_ok": _xdev_ok(), "dev_full_ok": _full_ok(), "to_dev_full": sum(1 for c in cases for l in c if l.startswith("xfull") or l.endswith(" full")), "xmove_xdev": 0, "xmove_same_device": 0, "dev2_1_histories": 0, "moves_in_dev2_1_histories": 0}
     crlf_split = 0
     nearbom = 0
     for c in cases:
